@@ -21,8 +21,20 @@ def main():
     mod = importlib.import_module(modname)
     if a.replay:
         rp = json.load(open(a.replay))
-        print(json.dumps(rp, indent=1))
-        sys.exit(mod.replay(rp) if hasattr(mod, "replay") else 0)
+        print("replaying %s claim %s at witness %s on the real float64 code" % (rp.get("obligation"), rp.get("claim"), rp.get("witness")))
+        if not isinstance(rp.get("witness"), dict) or "i" in rp.get("witness", {}) or not all(isinstance(v, str) for v in rp["witness"].values()):
+            print("this replay file is not a symx witness (CrossHair / enumeration): see its 'how' / 'detail' fields")
+            print(json.dumps(rp, indent=1)[:1500])
+            sys.exit(0)
+        common.REPLAY_REQUEST = rp
+        for name, fn in mod.obligations(a.tier, seed):
+            if name == rp["obligation"]:
+                r = fn()
+                print(json.dumps(r.get("replay"), indent=1, default=str)[:3000])
+                cr = (r.get("replay") or {}).get("claim_result")
+                sys.exit(1 if (cr is not None and not cr["holds"]) else 0)
+        print("obligation not found in tier %s" % a.tier)
+        sys.exit(2)
     rc = common.run_property(a.pid, modname, tier=a.tier, seed=seed, only=a.only, procs=a.procs,
                              level=getattr(mod, "LEVEL", "model_checking"), technique=getattr(mod, "TECHNIQUE", ""),
                              assumptions=getattr(mod, "ASSUMPTIONS", ()))
